@@ -30,15 +30,23 @@ each held at one stage of a request's life:
      earlier indication whose callback is held (a handler never waits for a callback: it only puts on the queue),
   e  request complete, the handler held inside send_response() (log record 'Sending POST response ...' of the
      listener's logger, lock-free handler), i.e. the indication is queued, the response not yet written.
-Every stage is confirmed by observation before stop() is called (handler thread census, server thread inside
-do_handshake, handler inside the log gate); the stopper thread is then watched (frame names only) until it sits
-in shutdown() / server_close() / _stop_indication_delivery(), and only then the senders finish (send the rest
-and read the response / half-close / close) and the held callback is released, in both orders.  Oracle for the
-in-flight indication: refused or unanswered => never delivered if its body was never complete, at most once
-otherwise; success => every callback exactly once before stop() returned; the thread census is taken in the
-stopper thread directly after stop() returns; a second start()/send/stop() round must work.  http and https
-(self-signed certificate generated at run time: the only certificate of the source tree, attic/irecv/server.pem,
-has a 512 bit key that OpenSSL 3 refuses), queue bound 0/1/2, no / held / slow callbacks.
+Every stage is confirmed by observation before stop() is called (a new request handler thread per connection,
+the server thread inside do_handshake, the handler inside the log gate, the log record of the response for d).
+The stopper thread is then watched (stack frames only) until stop() has returned or PROVABLY waits for what the
+harness holds: inside Thread.join() of a held handler thread, inside shutdown() while the server thread sits in
+the handshake of the held connection, inside _stop_indication_delivery() with nothing but the held callback
+left (variant: already when it is inside shutdown(), for the first sender to end).  Only then the senders end,
+one by one (send the rest and read the response / half-close and read / close), with the same watch after each
+while others are still held; the held callback is released before or after them; in a quarter of the cases the
+last delivery lingers until stop() lets go of the queue (0.4 s at most).  Oracle for the in-flight indication:
+refused or unanswered => never delivered if its body was never complete, at most once otherwise; success =>
+every callback exactly once before stop() returned; the thread census is taken in the stopper thread directly
+after stop() returns; stop() does not raise; a second start()/send/stop() round works.  http and https (self-
+signed certificate generated at run time: the only certificate of the source tree, attic/irecv/server.pem, has
+a 512 bit key that OpenSSL 3 refuses), queue bound 0/1/2, no / held / slow callbacks.
+Not a violation, but seen in every such case: stop() does not return as long as a peer keeps a connection open
+without sending (over https a single idle TCP connection holds the server thread in the TLS handshake, so that
+nobody else is served either) - the property asks for no lost or late delivery, not for a bounded stop().
 """
 import http.client
 import itertools
@@ -66,7 +74,8 @@ R = Run('loopback WBEMListener: senders 1..3 x indications 1..3 x 8 callback set
         'send, first callback held until all answered, held through stop(), held through stop()+last lingers, '
         'last in flight lingers, slow log handler inside stop()) x restart yes/no (quick: seeded covering subset, '
         'thorough: full product + perturbed repeat) + lifecycle specials (stop before start, double stop, 3 '
-        'start/stop cycles, context manager, busy port, default 2 s get timeout, 0.6 s sleeping callback); OS '
+        'start/stop cycles, context manager, busy port, https part of start() failing after the http server is '
+        'up, default 2 s get timeout, 0.6 s sleeping callback); OS '
         'schedules only, seeded sender think times / log-record yields / switch interval; + in-flight schedules: '
         'stop() from another thread while 1..3 raw-socket senders are held in different stages (a connection '
         'open / b headers sent / c body partly sent / d answered but unread and queued behind a held callback / '
@@ -76,7 +85,28 @@ R = Run('loopback WBEMListener: senders 1..3 x indications 1..3 x 8 callback set
         'stage set and protocol, thorough: all end combinations x callback modes x bounds)')
 
 QUICK = R.tier == 'quick'
-HOST = '127.0.0.1'
+
+
+def _loopback_of_this_run():
+    """An address of 127.0.0.0/8 of this run's own (from the pid of the main process; the forked workers share
+    it): two runs of this script at the same time (quick and thorough, say) then never see each other's
+    listeners even if they pick the same port number - a sender of one run that connects just after its
+    listener has stopped could otherwise be acknowledged by the other run's listener.  Where only 127.0.0.1
+    exists, that is used."""
+    pid = os.getpid()
+    cand = '127.%d.%d.%d' % (16 + pid % 200, 1 + (pid // 200) % 250, 1 + (pid // 50000) % 250)
+    s = socket.socket(socket.AF_INET, socket.SOCK_STREAM)
+    try:
+        s.bind((cand, 0))
+        return cand
+    except OSError:
+        return '127.0.0.1'
+    finally:
+        s.close()
+
+
+HOST = _loopback_of_this_run()      # where the listeners listen
+CLIENT_HOST = '127.0.0.1'           # where connections to any address of 127.0.0.0/8 come from
 NWORKERS = 8
 QGT = 0.02                       # queue_get_timeout used in most cases (public attribute; default is 2 s)
 PHASE_TIMEOUT = 25.0             # watchdog: one phase of a case
@@ -94,6 +124,7 @@ K_TASKDONE = 'known:stop-raises-AttributeError-task_done-on-cleared-queue'
 K_GET = 'known:stop-raises-AttributeError-get-on-cleared-queue'
 K_RESTART = 'known:start-after-failed-stop-raises-AssertionError'
 K_STOP2 = 'known:stop-after-failed-stop-raises-same-error-again'
+K_FAILED_START = 'known:failed-start-leaves-http-server-acknowledging-indications-it-drops'
 
 SCENARIOS = ('quiesce', 'after-acks', 'during-send', 'hold-release', 'hold-thru-stop', 'hold-thru-stop-linger',
              'linger-last', 'slow-log-in-stop')
@@ -135,11 +166,12 @@ class Ctl:
         self.listener = None
         self.first_entered = threading.Event()
         self.release = threading.Event()
+        self.hold_release = threading.Event()     # in-flight cases: ends the hold only (release also ends lingering)
         self.go = threading.Event()
         self.senders_done = threading.Event()
         self.stop_called = threading.Event()
         self.any_resp = threading.Event()
-        self.hold = None              # None | 'acked' | 'stop'
+        self.hold = None              # None | 'acked' | 'stop' | 'inflight'
         self.linger = False
         self.linger_idx = 0
         self.slow_log = False
@@ -175,6 +207,8 @@ class Ctl:
             self.first_entered.set()
             if self.hold == 'acked':
                 self.release.wait(20)
+            elif self.hold == 'inflight':
+                self.hold_release.wait(20)
             else:
                 self.stop_called.wait(20)
                 t_end = time.monotonic() + 0.3
@@ -822,7 +856,7 @@ def check_log(ctl, ses, nsessions):
 
     # arguments
     for e in enters:
-        if e[5] != HOST or e[6] != 'C16_Indication' or e[2] not in ctl.send:
+        if e[5] not in (HOST, CLIENT_HOST) or e[6] != 'C16_Indication' or e[2] not in ctl.send:
             ctl.violation('callback-arguments-wrong', indication=e[2], host=e[5], classname=e[6])
             break
 
@@ -1000,7 +1034,9 @@ def run_inflight_case(ctl, ports, case, rnd):
     sys.setswitchinterval(1e-4 if (variant & 8) else 0.005)
     if cbmode == 'slow':
         cbset = tuple('slower' if b == 'fast' else b for b in cbset)
-    ctl.hold = 'acked' if cbmode == 'held' else None
+    ctl.hold = 'inflight' if cbmode == 'held' else None
+    ctl.linger = bool(variant & 16)   # the last delivery lingers until stop() has let go of the queue (0.4 s at most)
+    ctl.linger_idx = 0
     ses = Session(ctl, ports, bound, cbset, gate=True, proto=proto)
     if not ses.start_first():
         return
@@ -1043,7 +1079,7 @@ def run_inflight_case(ctl, ports, case, rnd):
         return sum(1 for e in list(ctl.log) if e[0] == 'exit' and e[2] == '1.s0.i0') >= len(cbset)
 
     def release_callback():
-        ctl.release.set()
+        ctl.hold_release.set()
         if cbmode == 'held':
             t_end = time.monotonic() + 3
             while not primer_done() and time.monotonic() < t_end:
@@ -1061,7 +1097,7 @@ def run_inflight_case(ctl, ports, case, rnd):
             w = ses.stop_waits_for(h, held_threads, https_a[0])
             if w in ('handler', 'handshake') or (w == 'shutdown' and first and not deep):
                 return w
-            if w == 'delivery' and cbmode == 'held' and not ctl.release.is_set():
+            if w == 'delivery' and cbmode == 'held' and not ctl.hold_release.is_set():
                 if not something_held():
                     return w          # nothing but the held callback (and what is queued behind it) is left
                 release_callback()    # stop() went past the held handlers and waits for the callback: let it
@@ -1120,10 +1156,11 @@ def run_inflight_case(ctl, ports, case, rnd):
         ctl.set_phase('finish')
         if order == 'cb-first':
             release_callback()
-        ctl.resp_release.set()        # the handlers of stage e write their responses and end
         for r in (reversed(raws) if rev else raws):
             if r.finished:
                 continue
+            if r.stage == 'e':
+                ctl.resp_release.set()        # the handler writes its response and ends
             r.finish()
             if r.thread is not None:
                 r.thread.join(4)
@@ -1134,7 +1171,8 @@ def run_inflight_case(ctl, ports, case, rnd):
                 https_a[0] = False
             if something_held() and not h['done'].is_set():
                 await_stop(False)     # the other senders are still held: stop() must go on waiting for them
-        if order != 'cb-first' and not ctl.release.is_set():
+        ctl.senders_done.set()
+        if order != 'cb-first' and not ctl.hold_release.is_set():
             if cbmode == 'held':
                 # everything is answered; stop() has to wait for the held callback (queue not empty, or join of
                 # the callback thread): see it arrive there and give it some time to return wrongly
@@ -1146,10 +1184,10 @@ def run_inflight_case(ctl, ports, case, rnd):
             release_callback()
         ctl.set_phase('stop1')
         exc = ses.stop_join(h)
-        ctl.senders_done.set()
         ses.check_stopped(exc, 'stop() with requests in flight: ' + stages, left_at_return=h['left'])
         nsess = 1
         ctl.hold = None
+        ctl.linger = False
         if ses.restart():
             nsess = 2
             ctl.set_phase('send2')
@@ -1163,6 +1201,7 @@ def run_inflight_case(ctl, ports, case, rnd):
     finally:
         ctl.resp_armed = False
         ctl.release.set()
+        ctl.hold_release.set()
         ctl.resp_release.set()
         for r in raws:
             r.close()
@@ -1318,6 +1357,80 @@ def run_special(ctl, ports, case, rnd):
             exc = ses.stop()
             ses.check_stopped(exc, 'stop() after start() that followed a failed start()')
         check_log(ctl, ses, 1)
+    elif kind == 'failed-start-two-ports':
+        # http and https port given, the https part of start() fails (port taken by somebody else / certificate
+        # file missing) after the http server has been started: start() raises; then nothing of the listener may
+        # be running, and above all nothing may be acknowledged on the http port
+        mode, bound = case[2], case[3]
+        ses = Session(ctl, ports, bound, ('fast',))
+        ses.port = ports.next()
+        sport = ports.next()
+        good = mode == 'port-busy' and TLS['cert']
+        kw = {} if bound is None else {'max_ind_queue_size': bound}
+        lis = pywbem.WBEMListener(HOST, http_port=ses.port, https_port=sport,
+                                  certfile=TLS['cert'] if good else '/nonexistent/c16-cert.pem',
+                                  keyfile=TLS['key'] if good else '/nonexistent/c16-key.pem', **kw)
+        lis.queue_get_timeout = QGT
+        lis.add_callback(ses.cbs[0])
+        ses.lis = ctl.listener = lis
+        blocker = None
+        if mode == 'port-busy':
+            blocker = socket.socket(socket.AF_INET, socket.SOCK_STREAM)
+            blocker.bind((HOST, sport))
+            blocker.listen(1)
+        try:
+            ctl.set_phase('start-failing')
+            raised = None
+            try:
+                lis.start()
+                ctl.violation('start-with-unusable-https-port-does-not-raise', mode=mode)
+            except (pywbem.ListenerStartError, pywbem.ListenerCertificateError) as e:
+                raised = e
+            except BaseException as e:        # pylint: disable=broad-except
+                ctl.violation('start-with-unusable-https-port-raises-' + type(e).__name__, observed=repr(e)[:200])
+            if raised is not None:
+                ctl.stop_call[1] = ctl.stop_ret[1] = ctl.tick()     # start() has failed: not listening from here on
+                left = [t.name for t in ses.listener_threads()]
+                ctl.set_phase('send')
+                ses.run_senders(1, 1, 1, rnd)
+                iid = '1.s0.i0'
+                st = ctl.status.pop(iid)
+                ctl.order.pop((1, 0))
+                delivered = False
+                if st == ('ok',):
+                    t_end = time.monotonic() + 0.3
+                    while not delivered and time.monotonic() < t_end:
+                        delivered = any(e[2] == iid for e in list(ctl.log))
+                        time.sleep(0.002)
+                if left or st[0] != 'noresp':
+                    ctl.violation(K_FAILED_START, mode=mode, raised=repr(raised)[:120], threads_left=left,
+                                  http_started=lis.http_started, queue_exists=lis.ind_queue_exists(),
+                                  response_on_http_port=repr(st), delivered=delivered,
+                                  what='WBEMListener(host, http_port=P, https_port=Q).start() with Q unusable (taken '
+                                       'by another socket, or certfile missing) raises, but only the callback '
+                                       'thread and the queue are cleaned up: the http server thread started before '
+                                       'keeps serving P, and an ExportIndication sent to P is answered with a '
+                                       'success response and dropped ("Indication queue not set up - ignoring '
+                                       'indication")')
+        finally:
+            if blocker is not None:
+                blocker.close()
+        # stop() brings everything down whatever start() left behind, and the listener is usable afterwards
+        ses.nsess = 1
+        ctl.stop_call.pop(1, None)
+        ctl.stop_ret.pop(1, None)
+        exc = ses.stop()
+        ses.check_stopped(exc, 'stop() after a failed start()')
+        ctl.log[:] = []
+        if good and ses.restart():
+            ctl.set_phase('send2')
+            ses.run_senders(2, 2, 2, rnd)
+            ses.wait_delivered(2)
+            exc = ses.stop()
+            ses.check_stopped(exc, 'stop() after start() that followed a failed start()')
+            if not bindable(sport) and own_socket_on(sport) is not False:
+                ctl.violation('stop-leaves-port-bound', where='https port', port=sport)
+        check_log(ctl, ses, ses.nsess)
 
 
 def run_case(case_no, case, seed, ports):
@@ -1375,7 +1488,8 @@ def build_inflight(tier, seed, protos):
                     ends = tuple(STAGE_ENDS[s][(idx // 3 + k + j) % len(STAGE_ENDS[s])]
                                  for j, s in enumerate(stages))
                     out.append(('inflight', proto, stages, ends, cbmode, order, (idx + idx // 3) % 3,
-                                IF_CBSETS[(idx + idx // 4) % 4], (idx * 5 + idx // 16) % 16))
+                                IF_CBSETS[(idx + idx // 4) % 4],
+                                (idx * 5 + idx // 16) % 16 + (16 if (idx + idx // 5) % 4 == 3 else 0)))
     else:
         for proto in protos:
             for stages in STAGE_SETS:
@@ -1384,7 +1498,8 @@ def build_inflight(tier, seed, protos):
                     for cbmode, order in modes:
                         for bound in (0, 1, 2):
                             out.append(('inflight', proto, stages, ends, cbmode, order, bound,
-                                        rnd.choice(IF_CBSETS), rnd.randrange(16)))
+                                        rnd.choice(IF_CBSETS),
+                                        rnd.randrange(16) + (16 if rnd.randrange(4) == 0 else 0)))
     return out
 
 
@@ -1396,6 +1511,9 @@ def build_cases(tier, seed):
             specials.append(('special', 'lifecycle', what, b))
     for b in ((0, 2) if tier == 'quick' else (0, 1, 2, None)):
         specials.append(('special', 'busy-port', b))
+    for mode in ('port-busy', 'bad-cert'):
+        for b in ((0, 1) if tier == 'quick' else (0, 1, 2, None)):
+            specials.append(('special', 'failed-start-two-ports', mode, b))
     specials.append(('special', 'default-get-timeout', 1, 1))
     if tier != 'quick':
         specials += [('special', 'default-get-timeout', 2, 2), ('special', 'default-get-timeout', 3, 3)]
